@@ -12,7 +12,13 @@ S2Q(S) == SetToSeq(S)
 
 \* ---- lookup
 LkURIs == ReqURIs(TailLen)
-LookupDesignOK == \A cfg \in LookupCfgs : \A u \in LkURIs : LookupHolds(LookupCase(cfg, u), LookupExpected(LookupCase(cfg, u)))
+LookupDesignOK ==
+  \A u \in LkURIs :
+    LET all == {t \in TemplateNames : Match(t, u)} IN
+    \A cfg \in LookupCfgs :
+      LET c == LookupCase(cfg, u)
+          ms == cfg.T \cap all IN
+      LookupHoldsW(c, LookupExpectedW(c, ms), ms)
 \* vacuity: exact beats a matching template; two templates match and the first in order wins; a template-only hit; a miss
 LookupWitnesses ==
   /\ \E cfg \in LookupCfgs, u \in LkURIs : LET c == LookupCase(cfg, u) IN ExactHit(c) # {} /\ Matching(c) # {}
